@@ -6,7 +6,8 @@
               orthonormal product sets (a (x) conj b), so it is PPT - MC_UPB states this as the model theorem.
      closed : closed-form REE / EOF / GME of Werner and isotropic states: exactly zero on the separable range
               (alpha <= 1/d resp. alpha <= 1/(d+1), end point included), strictly positive outside;
-     closed_near : the same closed forms within 2^-10 .. 2^-50 of the threshold, on both sides. *)
+     closed_near : the same closed forms within 2^-10 .. 2^-50 of the threshold, on both sides;
+     closed_shape : monotone, continuous and with the documented end value on the entangled range. *)
 EXTENDS Rat, TLC, Json, IOUtils, FiniteSets
 Events == JsonDeserialize(IOEnv.TRACE_FILE)
 VARIABLE l
@@ -30,7 +31,14 @@ ClosedOK(e) == LET a == R(e.num, e.den)  sep == IF e.family = "Werner" THEN SepW
 ClosedNearOK(e) == /\ e.k # 0 /\ e.e >= 10 /\ e.e <= 50 /\ e.finite
                    /\ e.k < 0 => e.zero
                    /\ e.k > 0 => e.nonneg /\ e.below
-Valid(e) == CASE e.op = "upb" -> UpbOK(e) [] e.op = "closed" -> ClosedOK(e) [] e.op = "closed_near" -> ClosedNearOK(e) [] OTHER -> FALSE
+\* the shape of a closed form on the entangled range, sampled on a uniform grid from the threshold to alpha = 1 (values rounded at scale
+\* e.S): a measure of entanglement of a one-parameter family that moves away from the separable set is non-decreasing, has no jump (no
+\* step larger than 15% of the whole range - the branches of a piecewise formula must meet) and ends at the documented end value.
+ClosedShapeOK(e) == LET n == Len(e.vals)  span == e.vals[n] - e.vals[1] IN
+   /\ n >= 50 /\ e.vals[1] >= -2 /\ e.vals[1] <= 2                        \* starts at zero on the threshold
+   /\ \A k \in 1..(n - 1) : e.vals[k + 1] >= e.vals[k] - 2 /\ 20 * (e.vals[k + 1] - e.vals[k]) <= 3 * span + 40
+   /\ (e.endval >= 0 => (e.vals[n] - e.endval <= 2 /\ e.endval - e.vals[n] <= 2))
+Valid(e) == CASE e.op = "closed_shape" -> ClosedShapeOK(e) [] e.op = "upb" -> UpbOK(e) [] e.op = "closed" -> ClosedOK(e) [] e.op = "closed_near" -> ClosedNearOK(e) [] OTHER -> FALSE
 Init == l = 1 /\ TLCSet(1, 0)
 Next == /\ l <= Len(Events)
         /\ IF Valid(Events[l]) THEN TLCSet(1, TLCGet(1) + 1) ELSE PrintT(<<"REJECT", l, Events[l].op>>)
